@@ -32,8 +32,11 @@ for m in sorted(glob.glob("/verif/seeded-negative/*/meta.json")):
     # line numbers are not part of the key; ordinal suffixes (#n) may shift with a refactoring, compare without them too
     strip = lambda s: {(r, f, re.sub(r"#\d+$", "", c)) for (r, f, c) in s}
     extra = {x for x in v if x not in base_cache[base] and (x[0], x[1], re.sub(r"#\d+$", "", x[2])) not in strip(base_cache[base])}
+    kfa = d.get("known_false_alarm")
     if failed:
         print(name, "CHECK-FAILED"); bad += 1
+    elif extra and kfa and {x[0] for x in extra} <= set(kfa["rules"]):
+        print(name, "known false alarm (documented limitation):", ", ".join(sorted({x[0] for x in extra})))
     elif extra:
         bad += 1
         print(name, "FALSE ALARM:")
